@@ -23,7 +23,6 @@ C leaves unspecified (identity of equal string literals, order of same-priority 
 different TUs, addresses); the checks verify that with GNU ld (all input orders, all kinds) before
 trusting a program.
 """
-import itertools
 import os
 import subprocess
 
@@ -461,14 +460,16 @@ NOINL int vq_use_hid(void) { vq_hid_var += 1; return vq_hid_fn(vq_hid_var) + vq_
 extern int vq_undef_var __attribute__((weak)); extern int vq_undef_fn(int) __attribute__((weak));
 extern HID int vq_undef_hid __attribute__((weak));
 extern int vq_wk_over(void), vq_wk_only(void); extern int vq_wk_var;
+extern HID int vq_hid_fn(int);
+NOINL int vq_hid_third(void) { return vq_hid_fn(0x40); }
 NOINL int vq_wku(void) { return (&vq_undef_var ? 1 : 0) | (vq_undef_fn ? 2 : 0) | (&vq_undef_hid ? 4 : 0); }
 int *const vq_wku_tab[2] = {&vq_undef_var, &vq_wk_var};
 NOINL int vq_wk_calls_w(void) { return vq_wk_over() * 100 + vq_wk_only() * 10 + vq_wk_var; }
 """)
-    P.decl_m("extern int vq_wk_calls_d(void), vq_wk_calls_w(void), vq_use_hid(void), vq_wku(void); "
+    P.decl_m("extern int vq_wk_calls_d(void), vq_wk_calls_w(void), vq_use_hid(void), vq_wku(void), vq_hid_third(void); "
              "extern int *const vq_wku_tab[2];")
     P.call('vq_kv("WEAK.from_definer", vq_wk_calls_d()); vq_kv("WEAK.from_other", vq_wk_calls_w());')
-    P.call('vq_kv("HID.use", vq_use_hid()); vq_kv("WKU.code_null", vq_wku()); '
+    P.call('vq_kv("HID.use", vq_use_hid()); vq_kv("HID.third_tu", vq_hid_third()); vq_kv("WKU.code_null", vq_wku()); '
            'vq_kv("WKU.data_null", vq_wku_tab[0] == 0); vq_kv("WKU.data_def", *vq_wku_tab[1]);')
 
 
@@ -560,7 +561,7 @@ char vq_big[3 << 20];
 extern char vq_page[];
 void vq_rep_big(void) {
   u64 nz = 0, sum = 0;
-  for (u64 i = 0; i < sizeof vq_big; i += 4099) nz += vq_big[i] != 0;
+  for (u64 i = 0; i < sizeof vq_big; i += 40961) nz += vq_big[i] != 0;
   for (u64 i = 0; i < sizeof vq_big; i += 65537) vq_big[i] = (char)(i >> 16);
   for (u64 i = 0; i < sizeof vq_big; i += 65537) sum += (u8)vq_big[i];
   vq_kv("BIG.nonzero", nz); vq_kv("BIG.sum", sum); vq_kv("BIG.last", vq_big[sizeof vq_big - 1] == 0);
@@ -774,6 +775,10 @@ def link_argv(kind, inputs, out, opts=()):
 def run_native(path, libdir, timeout=20):
     """-> (status, transcript text).  status: exit status, negative signal number or 'timeout'."""
     rc, so, se = vlib.run([path], env={"LD_LIBRARY_PATH": libdir}, timeout=timeout, cwd=libdir)
+    if rc == "timeout":
+        # The programs run for well under a millisecond; on this shared machine a process can still
+        # starve.  Only a program that also exceeds a much longer limit is reported as hanging.
+        rc, so, se = vlib.run([path], env={"LD_LIBRARY_PATH": libdir}, timeout=timeout * 10, cwd=libdir)
     text = so.decode("utf-8", "replace")
     if se:
         text += "STDERR=" + se.decode("utf-8", "replace")[:300].replace("\n", " | ") + "\n"
@@ -787,9 +792,12 @@ def tag_of(line):
 def first_diff(ref, got):
     """ref, got: (status, transcript).  -> None when identical, else (tag, description).  The tag is
     that of the first reference line that is missing or different in `got`; 'exit-status' when only
-    the status differs; 'extra-output' when `got` continues after the reference ends."""
+    the status differs; 'extra-output' when `got` continues after the reference ends; 'no-output' when
+    the program printed nothing (died in the loader or in its start-up code)."""
     (rs, rt), (gs, gt) = ref, got
     rl, gl = rt.splitlines(), gt.splitlines()
+    if rl and not [l for l in gl if not l.startswith("STDERR=")]:
+        return "no-output", f"no transcript at all (status {gs}, expected {rs}) {gt[:300]}"
     for i, line in enumerate(rl):
         if i >= len(gl):
             return tag_of(line), f"output ends before '{line}' (status {gs}, expected {rs})"
